@@ -209,7 +209,7 @@ pub fn make_caller_at(pkg: &mut Package<NoCtx>, sig: &str, entry: &str) -> Resul
         "S,S>S" => (S, S) -> S, "S,S>b" => (S, S) -> bool, "S,S>lS" => (S, S) -> List<S>, "S,S>oS" => (S, S) -> Option<S>,
         "S,S,S>S" => (S, S, S) -> S,
         "S,u64>S" => (S, u64) -> S, "S,u64>oc" => (S, u64) -> Option<char>, "S,u64,u64>oS" => (S, u64, u64) -> Option<S>,
-        "S,u64,S>lS" => (S, u64, S) -> List<S>,
+        "S,u64,S>lS" => (S, u64, S) -> List<S>, "S,u64,S>S" => (S, u64, S) -> S,
         "S,c>S" => (S, char) -> S,
         "u8>S" => (u8) -> S, "u16>S" => (u16) -> S, "u32>S" => (u32) -> S, "u64>S" => (u64) -> S,
         "i8>S" => (i8) -> S, "i16>S" => (i16) -> S, "i32>S" => (i32) -> S, "i64>S" => (i64) -> S,
@@ -515,7 +515,29 @@ fn strings(t: &mut Tab, prng: &mut Prng, thorough: bool) {
         for c in ['a', '\0', '\u{e9}', '\u{10ffff}', '\u{d7ff}'] {
             t.add("StringBuf.push_char", &["StringBuf.from", "StringBuf.push_string", "StringBuf.as_string"], "StringBuf",
                 "fn main(s: String, c: char) -> String { let b = StringBuf.from(s); b.push_char(c); b.push_string(s); b.as_string() }",
-                "S,c>S", format!("{} char-len{}", str_class(st), c.len_utf8()), vec![s(st), Arg::Ch(c)], None);
+                "S,c>S", format!("{} char-len{}", str_class(st), c.len_utf8()), vec![s(st), Arg::Ch(c)],
+                Some(format!("c10 {PW} stringbuf {} {}", xs(st), c as u32)));
+        }
+        // `==` on StringBuf (two locks in one statement) x aliasing classes: the same buffer twice (must not
+        // wait for itself: solo, short timeout), two buffers with equal / different contents, compared after
+        // one of them was appended to
+        // (one subject per string class: a hanging `==` costs a timeout per case)
+        if all.iter().position(|x| str_class(x) == str_class(st)) != all.iter().position(|x| x == st) {
+            continue;
+        }
+        let mark = t.out.len();
+        t.add("StringBuf.from", &["StringBuf.push_string"], "StringBuf.eq.alias",
+            "fn main(s: String) -> bool { let a = StringBuf.from(s); let b = a; b.push_string(s); a == b }", "S>b",
+            format!("{} ==same-buffer", str_class(st)), vec![s(st)], Some(format!("c10 {PW} sb_eq_alias {}", xs(st))));
+        t.add("StringBuf.from", &["StringBuf.as_string"], "StringBuf.eq.self",
+            "fn main(s: String) -> bool { let a = StringBuf.from(s); a == a && a.as_string() == s }", "S>b",
+            format!("{} ==same-name", str_class(st)), vec![s(st)], Some(format!("c10 {PW} sb_eq_alias {}", xs(st))));
+        t.solo_since(mark);
+        for other in ["", "a", "\u{e9}"].iter().map(|x| x.to_string()).chain([st.clone()]) {
+            t.add("StringBuf.from", &["StringBuf.push_string"], "StringBuf.eq",
+                "fn main(s: String, n: String) -> bool { let a = StringBuf.from(s); let b = StringBuf.from(n); let r = a == b; b.push_string(s); a.push_string(n); r && !(a == b && s != n) }",
+                "S,S>b", format!("{} ==other-{}", str_class(st), if other == *st { "equal" } else { str_class(&other) }),
+                vec![s(st), s(&other)], Some(format!("c10 {PW} sb_eq {} {}", xs(st), xs(&other))));
         }
     }
     t.add("StringBuf.new", &["StringBuf.as_string"], "StringBuf.new", "fn main() -> String { let b = StringBuf.new(); b.as_string() }",
@@ -560,6 +582,20 @@ fn strings(t: &mut Tab, prng: &mut Prng, thorough: bool) {
             }
             t.add("List.join", &["String.split"], "List.join", "fn main(s: String, f: String, t: String) -> String { s.split(f).join(t) }",
                 "S,S,S>S", c.clone(), vec![s(st), s(&nd), s("<>")], Some(format!("c10 {PW} split_join {} {} {}", xs(st), xs(&nd), xs("<>"))));
+        }
+        // `join` on lists that OTHER built-ins produce on edge inputs: `"".lines().list()` is the empty list,
+        // `s.splitn(0, sep)` is the empty list for every `s`, `s.splitn(1, sep)` a singleton
+        for sep in ["", ",", "\u{8a9e}"] {
+            t.add("List.join", &["String.lines", "StringLines.list"], "List.join.lines",
+                "fn main(s: String, t: String) -> String { s.lines().list().join(t) }", "S,S>S",
+                format!("{} lines-list sep-{}", str_class(st), str_class(sep)), vec![s(st), s(sep)],
+                Some(format!("c10 {PW} lines_join {} {}", xs(st), xs(sep))));
+            for (n, nl) in [(0u64, "0"), (1, "1")] {
+                t.add("List.join", &["String.splitn"], "List.join.splitn",
+                    "fn main(s: String, k: u64, t: String) -> String { s.splitn(k, \",\").join(t) }", "S,u64,S>S",
+                    format!("{} splitn-{nl}-list sep-{}", str_class(st), str_class(sep)), vec![s(st), u(n), s(sep)],
+                    Some(format!("c10 {PW} splitn_join {} {n} {}", xs(st), xs(sep))));
+            }
         }
         // repeat: the result stays below 1 MB; counts beyond that only on the empty string
         let mut counts: Vec<(u64, &str)> = vec![(0, "0"), (1, "1"), (2, "2"), (3, "3"), (17, "17")];
